@@ -49,6 +49,45 @@ def run_lp(case):
     return {"A": A, "b": b, "c": c, "m": m, "n": n, "cden": cden, "events": events, "input": case}
 
 
+def run_lp_steps(case):
+    """Step level: wrap solvor.simplex._phase2 / _pivot (nothing in the library changes) and record, for the final phase-2 run on
+    the tableau of [A I], the starting basis and every (row, entering column) pivot."""
+    import solvor.simplex as S
+    A, b, c = case["A"], case["b"], case["c"]
+    m, n = len(b), len(c)
+    out = []
+    for minimize in (True, False):
+        rec = {"active": False, "basis0": None, "pivots": []}
+        orig2, origp = S._phase2, S._pivot
+
+        def phase2(matrix, basis, basis_set, mm, eps, max_iter, rec=rec, orig2=orig2):
+            final = len(matrix[0]) == n + m + 1
+            if final:
+                rec["active"] = True
+                rec["basis0"] = [int(x) + 1 for x in basis]
+            try:
+                return orig2(matrix, basis, basis_set, mm, eps, max_iter)
+            finally:
+                rec["active"] = False
+
+        def pivot(matrix, mm, row, col, eps, rec=rec, origp=origp):
+            if rec["active"]:
+                rec["pivots"].append([int(row) + 1, int(col) + 1])
+            return origp(matrix, mm, row, col, eps)
+        S._phase2, S._pivot = phase2, pivot
+        try:
+            r = S.solve_lp(list(c), [list(row) for row in A], list(b), minimize=minimize)
+            status = r.status.name
+        except Exception as ex:  # noqa: BLE001
+            status = "raise:" + type(ex).__name__
+        finally:
+            S._phase2, S._pivot = orig2, origp
+        if rec["basis0"] is not None and len(rec["pivots"]) <= 60:
+            out.append({"A": A, "b": b, "c": c, "m": m, "n": n, "minimize": minimize, "basis0": rec["basis0"], "pivots": rec["pivots"],
+                        "status": status, "input": case})
+    return {"steps": out}
+
+
 def gen_equalities(rng):
     """one or two equality constraints, each written as a <= row plus the opposite >= row, consistent with a non-negative
     integer point (phase 1 is needed and ends with several artificial variables basic at level zero)"""
